@@ -12,7 +12,13 @@ use crate::world::*;
 
 pub struct C08;
 
-const RX: usize = 96;
+const RX_DEFAULT: usize = 96;
+thread_local! { static RX_CELL: std::cell::Cell<usize> = const { std::cell::Cell::new(RX_DEFAULT) }; }
+/// Receive buffer of the current case (generative workloads vary it; enumerations use 96).
+fn rx() -> usize {
+    RX_CELL.with(|c| c.get())
+}
+
 
 fn ctx_steps() -> Vec<Step> {
     // operations kept in flight so that acknowledgements have something to match:
@@ -69,7 +75,7 @@ fn rand_ack_props(r: &mut Rng) -> Option<Vec<Prop>> {
     }
 }
 
-/// A spec-valid server packet of a random type, sized to fit `RX`.
+/// A spec-valid server packet of a random type, sized to fit the receive buffer.
 pub fn rand_valid(r: &mut Rng, post_connack: bool) -> SPacket {
     let pid = *r.pick(&[1u16, 2, 3, 4, 5, 9, 255, 256, 65535]);
     let kinds: &[u8] = if post_connack { &[3, 3, 3, 4, 5, 6, 7, 9, 11, 13, 14] } else { &[2, 2, 2, 2, 3, 14, 13] };
@@ -100,9 +106,26 @@ pub fn rand_valid(r: &mut Rng, post_connack: bool) -> SPacket {
             r.shuffle(&mut props);
             let reason = if r.chance(1, 5) { *r.pick(&rc::R_CONNACK[1..]) } else { 0 };
             let mut p = SPacket::ConnAck { sp: false, reason, props };
-            while rc::encode_server(&p).len() > RX {
+            while rc::encode_server(&p).len() > rx() {
                 if let SPacket::ConnAck { props, .. } = &mut p {
                     props.pop();
+                }
+            }
+            // sometimes pad with a user property so that the CONNACK fills the receive buffer exactly
+            let have = rc::encode_server(&p).len();
+            if r.chance(1, 5) && have + 6 <= rx() {
+                for pad in (0..=rx() - have - 5).rev() {
+                    let mut q = p.clone();
+                    if let SPacket::ConnAck { props, .. } = &mut q {
+                        props.push(Prop::UserProperty("p".into(), "x".repeat(pad)));
+                    }
+                    let n = rc::encode_server(&q).len();
+                    if n <= rx() {
+                        if n == rx() {
+                            p = q;
+                        }
+                        break;
+                    }
                 }
             }
             p
@@ -113,23 +136,25 @@ pub fn rand_valid(r: &mut Rng, post_connack: bool) -> SPacket {
             props.retain(|p| !matches!(p, Prop::TopicAlias(_)));
             let topic = rand_topic(r, 10);
             let mut p = SPacket::Publish { dup: qos > 0 && r.chance(1, 5), qos, retain: r.chance(1, 3), topic, pid: (qos > 0).then_some(pid), props, payload: vec![] };
-            while rc::encode_server(&p).len() > RX {
+            while rc::encode_server(&p).len() > rx() {
                 if let SPacket::Publish { props, .. } = &mut p {
                     props.pop();
                 }
             }
-            let room = RX - rc::encode_server(&p).len();
-            let len = match r.below(4) {
-                0 => room.saturating_sub(1),
-                1 => 0,
+            let room = rx() - rc::encode_server(&p).len();
+            let len = match r.below(5) {
+                // exact fit (shrunk below if the length prefix grew), one byte less, empty
+                0 => room,
+                1 => room.saturating_sub(1),
+                2 => 0,
                 _ => r.below(room.saturating_sub(1) + 1),
             };
             if let SPacket::Publish { payload, .. } = &mut p {
                 *payload = fill(r.next() as u32, len, ascii);
             }
-            if rc::encode_server(&p).len() > RX {
+            while rc::encode_server(&p).len() > rx() {
                 if let SPacket::Publish { payload, .. } = &mut p {
-                    payload.truncate(payload.len().saturating_sub(2));
+                    payload.pop();
                 }
             }
             p
@@ -247,7 +272,7 @@ pub fn mutate(r: &mut Rng, bytes: &[u8], op: &str) -> Vec<u8> {
         }
         "oversize" => {
             if b[0] >> 4 == 3 {
-                let extra = RX + r.below(40) - b.len().min(RX) + 1;
+                let extra = rx() + r.below(40) - b.len().min(rx()) + 1;
                 let rl = b.len() - hdr + extra;
                 let mut out = vec![b[0]];
                 rc::put_varint(&mut out, rl as u32);
@@ -362,6 +387,9 @@ fn judge(t: &Trace<'_>, conn: usize, frames: &[Judged], bad_tail: Option<&'stati
             }
             Class::MustAccept(p) => {
                 out.count("mustaccept_frames", 1);
+                if j.frame.len() == rx() {
+                    out.count("exact_fit_mustaccept_frames", 1);
+                }
                 let ok = match (p, &op.outcome) {
                     (SPacket::Disconnect { .. }, Outcome::Err(ErrRepr::Disconnected)) => true,
                     (SPacket::Disconnect { .. }, o) => {
@@ -467,7 +495,7 @@ fn judge(t: &Trace<'_>, conn: usize, frames: &[Judged], bad_tail: Option<&'stati
 /// Run: connect, optional in-flight context, inject `stream` (frame by frame so consumption is
 /// tracked per frame), poll until the client stops making progress.
 fn run_post(stream: &[u8], seed: u64, chunk: Chunk, with_ctx: bool) -> (RunLog, Shared, Vec<Vec<u8>>, Vec<u8>, Option<&'static str>) {
-    let cfg = CaseCfg { rx: RX, tx: 512, keepalive: 0, ..CaseCfg::default() };
+    let cfg = CaseCfg { rx: rx(), tx: 512, keepalive: 0, ..CaseCfg::default() };
     let (frames, tail, bad) = split_frames(stream);
     let mut steps = vec![Step::Connect(ConnectSpec {
         policy: IoPolicy { read: chunk, ..IoPolicy::default() },
@@ -493,7 +521,7 @@ fn run_post(stream: &[u8], seed: u64, chunk: Chunk, with_ctx: bool) -> (RunLog, 
 }
 
 fn run_pre(stream: &[u8], seed: u64, chunk: Chunk) -> (RunLog, Shared) {
-    let cfg = CaseCfg { rx: RX, tx: 512, keepalive: 0, ..CaseCfg::default() };
+    let cfg = CaseCfg { rx: rx(), tx: 512, keepalive: 0, ..CaseCfg::default() };
     let steps = vec![
         Step::Connect(ConnectSpec { policy: IoPolicy { read: chunk, ..IoPolicy::default() }, faults: vec![], connack: ConnackSpec::Raw(stream.to_vec()), broker: BrokerPolicy::default(), cancel_at: None }),
         poll0(),
@@ -540,6 +568,9 @@ fn judge_pre(t: &Trace<'_>, stream: &[u8], out: &mut CaseOut) {
                 }
                 Class::MustAccept(p) => {
                     out.count("mustaccept_frames", 1);
+                    if f.len() == rx() {
+                        out.count("exact_fit_mustaccept_frames", 1);
+                    }
                     match (&p, &op.outcome) {
                         (SPacket::ConnAck { reason: 0, sp, props }, Outcome::Ok(k)) => {
                             let want = if *sp { OkKind::Reconnected } else { OkKind::Connected };
@@ -607,7 +638,7 @@ impl Check for C08 {
         if tier == Tier::Quick { 500 } else { 5000 }
     }
     fn required_counters(&self) -> Vec<&'static str> {
-        vec!["mustaccept_frames", "mustreject_frames", "bad_headers", "publishes_delivered_verbatim", "acks_matching_inflight", "connacks_accepted_verbatim", "exhaustive_inputs"]
+        vec!["mustaccept_frames", "mustreject_frames", "bad_headers", "publishes_delivered_verbatim", "acks_matching_inflight", "connacks_accepted_verbatim", "exhaustive_inputs", "exact_fit_mustaccept_frames"]
     }
     fn exhaustive(&self) -> bool {
         true
@@ -615,6 +646,7 @@ impl Check for C08 {
     fn run(&self, workload: usize, seed: u64, index: u64, _tier: Tier, verbose: bool) -> CaseOut {
         let mut out = CaseOut::default();
         let mut rng = Rng::new(seed);
+        RX_CELL.with(|c| c.set(RX_DEFAULT));
         let mut one_post = |stream: &[u8], chunk: Chunk, with_ctx: bool, out: &mut CaseOut, label: &str| {
             let (log, world, frames, tail, bad) = run_post(stream, seed, chunk, with_ctx);
             let w = world.borrow();
@@ -622,7 +654,7 @@ impl Check for C08 {
             let judged: Vec<Judged> = frames
                 .iter()
                 .map(|f| {
-                    let class = match rc::classify_server(f, RX) {
+                    let class = match rc::classify_server(f, rx()) {
                         // a second CONNACK is a protocol error by the broker: not enumerated either way
                         Class::MustAccept(SPacket::ConnAck { .. }) => Class::DontCare("CONNACK after the handshake"),
                         c => c,
@@ -654,7 +686,7 @@ impl Check for C08 {
             judge_pre(&t, stream, out);
             out.evaluations += 1;
             let class = match rc::frame_server(stream) {
-                Framing::Frame(n) => Some(rc::classify_server(&stream[..n], RX)),
+                Framing::Frame(n) => Some(rc::classify_server(&stream[..n], rx())),
                 _ => None,
             };
             if matches!(class, Some(Class::MustReject(_))) || matches!(&class, Some(Class::MustAccept(SPacket::ConnAck { props, .. })) if !props.is_empty()) {
@@ -714,6 +746,7 @@ impl Check for C08 {
                 }
             }
             3 => {
+                RX_CELL.with(|c| c.set(*rng.pick(&[64usize, 96, 96, 127, 128, 129, 200])));
                 let n = rng.range(1, 3);
                 let mut stream = Vec::new();
                 for _ in 0..n {
@@ -731,6 +764,7 @@ impl Check for C08 {
                 one_post(&stream, chunk, true, &mut out, "post");
             }
             _ => {
+                RX_CELL.with(|c| c.set(*rng.pick(&[64usize, 96, 96, 127, 128, 129, 200])));
                 let p = rand_valid(&mut rng, false);
                 let mut bytes = rc::encode_server(&p);
                 if let SPacket::ConnAck { .. } = p {
